@@ -206,6 +206,7 @@ static void agree(const Vary &v1, const Req &r1, const Req &r2, const char *what
             vf_assert(sameSlot(r1.s[k], r2.s[k]), what);
 }
 
+static bool onlyEmptyRegistered = false; // set by c13_known_empty_registered only
 static void family(const Family &f)
 {
     vf_quiet();
@@ -214,13 +215,15 @@ static void family(const Family &f)
     if (f.vary2) rep2 = replyWith(pickVary(f.vary2, "vary2"));
     Req r1, r2;
     for (unsigned k = 0; k < NPOOL; ++k) { r1.s[k] = pick(f.r1[k], "r1"); r2.s[k] = pick(f.r2[k], "r2"); }
-    // KNOWN-FINDING candidate: a nominated *registered single-value* header field (User-Agent here; likewise Origin, Cookie,
-    // Referer, Authorization ...) that is present with an EMPTY value in one request and absent from the other gets the same
-    // mark: HttpHeader::getStrOrList() returns a copy of the entry's value and String's copy constructor turns a zero-length
-    // String into an undefined one, which assembleVaryKey() takes for "absent" (extension and list headers keep the
-    // difference: 'x-v=""' vs 'x-v'). Found by c13_states (thorough): Vary 'USER-agent,x-v', R1 without User-Agent,
-    // R2 with 'User-Agent:' -> VARY_MATCH. Excluded: exactly that class.
-    vf_assume(!(r1.s[1].present != r2.s[1].present && (r1.s[1].present ? r1.s[1].v.n : r2.s[1].v.n) == 0));
+    // KNOWN FINDING (known_findings.json, C13-empty-registered-header): a nominated *registered single-value* header field
+    // (User-Agent here; likewise Origin, Cookie, Referer, Authorization ...) that is present with an EMPTY value in one request
+    // and absent from the other gets the same mark: HttpHeader::getStrOrList() returns a copy of the entry's value and String's
+    // copy constructor turns a zero-length String into an undefined one, which assembleVaryKey() takes for "absent" (extension
+    // and list headers keep the difference: 'x-v=""' vs 'x-v'). Found by c13_states (thorough): Vary 'USER-agent,x-v', R1
+    // without User-Agent, R2 with 'User-Agent:' -> VARY_MATCH. The class is examined by its own entry
+    // (c13_known_empty_registered), every other entry excludes exactly this class.
+    const bool emptyVsAbsent = r1.s[1].present != r2.s[1].present && (r1.s[1].present ? r1.s[1].v.n : r2.s[1].v.n) == 0;
+    vf_assume(emptyVsAbsent == onlyEmptyRegistered);
 
     // R1 stores the variant: HttpStateData::haveParsedReplyHeaders() sets mem_obj->vary_headers = httpMakeVaryMark(request, reply)
     // and refuses to share the reply if that mark is empty
@@ -290,6 +293,17 @@ extern "C" void c13_value(void)
     case 2: f = Family{ vx, nullptr, { none, none, c }, { none, none, d } }; break;
     }
 #endif
+    family(f);
+}
+
+// KNOWN FINDING (known_findings.json, C13-empty-registered-header): Vary: User-Agent, the field absent in one request and
+// present with an empty value in the other
+extern "C" void c13_known_empty_registered(void)
+{
+    onlyEmptyRegistered = true;
+    static const char *const vary[] = { "User-Agent", nullptr };
+    static const char *const u[] = { ABSENT, "", nullptr };
+    const Family f = { vary, nullptr, { none, u, none }, { none, u, none } };
     family(f);
 }
 
